@@ -22,6 +22,7 @@ RULE = ("identities: all-zero, all-one, each of the 128 bits set alone and clear
         "inquire x5, configure node id 0..255, bit timing 0..255, store, activate; reply faults: every error code 1..255, "
         "wrong specifier, dropped reply, for configure / store / inquire; selective switch with right and wrong identities. "
         "Signature = (workload, identity class / service, fault class); non-trivial = identity is not all-zero.")
+RULE += (" " + 'Widened later: two-device commissioning on one master, identify remote slave (six fields), every third rig on a buffer-reusing back end, slow slave.')
 ASSUMPTIONS = ["RESPONSE_TIMEOUT lowered to 0.5 ms and canopen.lss.time virtualised: wall clock never decides (inline delivery)",
                "one unconfigured slave on the bus (what the property states)"]
 REQUIRED = {"scans": 40, "lss_requests_validated": 2000, "service_calls": 300, "fault_cases": 300}
